@@ -118,9 +118,12 @@ func DictNew(metatype *Type, args Tuple, kwargs StringDict) (Object, error) {
 		if err != nil {
 			return nil, err
 		}
-		for _, i := range seq.Items {
+		for n, i := range seq.Items {
 			switch z := i.(type) {
 			case Tuple:
+				if len(z) != 2 {
+					return nil, ExceptionNewf(ValueError, "dictionary update sequence element #%d has length %d; 2 is required", n, len(z))
+				}
 				if zStr, ok := z[0].(String); ok {
 					out[string(zStr)] = z[1]
 				}
